@@ -1,105 +1,162 @@
 (* C17 - PostgreSQL: autocommit switching (pony/orm/dbproviders/postgres.py: PGProvider.set_transaction_mode, PGPool.release)
-   around SessionCache.prepare_connection_for_query_execution / Database._exec_sql / commit / rollback / release.
-   Fault-free model, definitions only.  psycopg2: with connection.autocommit = False the first statement opens a transaction
-   that lasts until commit() / rollback(); with autocommit = True every statement is its own transaction; assigning
-   autocommit inside a transaction is an error.  Not executable in this sandbox against a server: tied on every run to the real
-   PGProvider / PGPool code driven with a recording stub connection. *)
+   around SessionCache.connect / prepare_connection_for_query_execution / Database._exec_sql / commit / rollback / close, WITH a
+   fault oracle: every driver call (execute, commit, rollback, close) may raise a database error for which
+   PGProvider.should_reconnect is False (ProgrammingError, IntegrityError, ...: cache.reconnect re-raises it).  Definitions only.
+   psycopg2: with connection.autocommit = False the first statement opens a transaction - also when that statement fails - that
+   lasts until commit() / rollback(); with autocommit = True every statement is its own transaction; assigning autocommit
+   inside a transaction is an error.  Not executable in this sandbox against a server: tied on every run to the real
+   PGProvider / PGPool / SessionCache code driven with a recording, fault-injecting stub connection. *)
 From Coq Require Import List Bool Arith.
 Import ListNotations.
 Require Import PonyV.Model.C19Txn.
 
 Inductive pstmt := PSetSerializable | PSel | PWr | PDiscard.
 Inductive pcall := PExecute (q : pstmt) | PCommit | PRollback | PSetAutocommit (b : bool) | PClose.
-(* call, connection.autocommit at the time, is a driver-level transaction open at the time *)
-Record pevent : Type := PEv { pe_call : pcall; pe_ac : bool; pe_dtx : bool }.
+(* call, did it succeed, connection.autocommit at the time, is a driver-level transaction open at the time *)
+Record pevent : Type := PEv { pe_call : pcall; pe_ok : bool; pe_ac : bool; pe_dtx : bool }.
 
 Record pst : Type := mkP {
   g_has : bool;        (* cache.connection is not None *)
+  g_pool : bool;       (* pool.con is not None *)
   g_ac : bool;         (* connection.autocommit *)
   g_dtx : bool;        (* driver-level transaction open *)
   g_reg : bool;        (* a cache is registered *)
   g_imm : bool; g_intx : bool;
   g_bad : bool;        (* autocommit assigned inside a transaction *)
+  g_n : nat;           (* index of the next driver call *)
   g_trace : list pevent
 }.
-Definition plog (c : pcall) (s : pst) : pst :=
-  mkP (g_has s) (g_ac s) (g_dtx s) (g_reg s) (g_imm s) (g_intx s) (g_bad s) (PEv c (g_ac s) (g_dtx s) :: g_trace s).
-Definition p_exec (q : pstmt) (s : pst) : pst :=
-  let s1 := plog (PExecute q) s in
-  mkP (g_has s1) (g_ac s1) (if g_ac s1 then g_dtx s1 else true) (g_reg s1) (g_imm s1) (g_intx s1) (g_bad s1) (g_trace s1).
+Definition pres := (bool * pst)%type.       (* true = completed, false = raised *)
+
+Section WithOracle.
+Variable oracle : nat -> bool.
+
+Definition pcallf (c : pcall) (s : pst) : pres :=
+  let ok := negb (oracle (g_n s)) in
+  let tr := PEv c ok (g_ac s) (g_dtx s) :: g_trace s in
+  let dtx := match c with
+             | PExecute _ => if g_ac s then g_dtx s else true          (* BEGIN is sent before the statement, also if it then fails *)
+             | PCommit | PRollback => if ok then false else g_dtx s
+             | PClose => false
+             | PSetAutocommit _ => g_dtx s
+             end in
+  (ok, mkP (g_has s) (g_pool s) (g_ac s) dtx (g_reg s) (g_imm s) (g_intx s) (g_bad s) (S (g_n s)) tr).
+(* connection.autocommit = b : an attribute assignment, it does not fail by itself *)
 Definition p_set_ac (b : bool) (s : pst) : pst :=
-  let s1 := plog (PSetAutocommit b) s in
-  mkP (g_has s1) b (g_dtx s1) (g_reg s1) (g_imm s1) (g_intx s1) (g_bad s1 || g_dtx s1) (g_trace s1).
-Definition p_end (c : pcall) (s : pst) : pst :=      (* connection.commit() / rollback() *)
-  let s1 := plog c s in
-  mkP (g_has s1) (g_ac s1) false (g_reg s1) (g_imm s1) (g_intx s1) (g_bad s1) (g_trace s1).
-Definition p_set_imm b s := mkP (g_has s) (g_ac s) (g_dtx s) (g_reg s) b (g_intx s) (g_bad s) (g_trace s).
-Definition p_set_intx b s := mkP (g_has s) (g_ac s) (g_dtx s) (g_reg s) (g_imm s) b (g_bad s) (g_trace s).
-Definition p_set_has b s := mkP b (g_ac s) (g_dtx s) (g_reg s) (g_imm s) (g_intx s) (g_bad s) (g_trace s).
+  mkP (g_has s) (g_pool s) b (g_dtx s) (g_reg s) (g_imm s) (g_intx s) (g_bad s || g_dtx s) (g_n s)
+      (PEv (PSetAutocommit b) true (g_ac s) (g_dtx s) :: g_trace s).
+Definition p_set_imm b s := mkP (g_has s) (g_pool s) (g_ac s) (g_dtx s) (g_reg s) b (g_intx s) (g_bad s) (g_n s) (g_trace s).
+Definition p_set_intx b s := mkP (g_has s) (g_pool s) (g_ac s) (g_dtx s) (g_reg s) (g_imm s) b (g_bad s) (g_n s) (g_trace s).
+Definition p_set_has b s := mkP b (g_pool s) (g_ac s) (g_dtx s) (g_reg s) (g_imm s) (g_intx s) (g_bad s) (g_n s) (g_trace s).
+Definition p_set_reg b s := mkP (g_has s) (g_pool s) (g_ac s) (g_dtx s) b (g_imm s) (g_intx s) (g_bad s) (g_n s) (g_trace s).
+
+Definition pbind (m : pst -> pres) (f : pst -> pres) : pst -> pres := fun s => match m s with (true, s') => f s' | r => r end.
+Definition pret (s : pst) : pres := (true, s).
+Definition pfail (s : pst) : pres := (false, s).
 
 Definition shape_ser (sh : shape) : bool := match sh with ShSer => true | _ => false end.
 
+(* Pool.drop: pool.con = None; con.close() (a new connection starts with autocommit off) *)
+Definition pg_pool_drop (s : pst) : pres :=
+  let (ok, s1) := pcallf PClose s in
+  (ok, mkP (g_has s1) false false false (g_reg s1) (g_imm s1) (g_intx s1) (g_bad s1) (g_n s1) (g_trace s1)).
+(* DBAPIProvider.drop *)
+Definition pg_drop (s : pst) : pres := pbind pg_pool_drop (fun s1 => pret (p_set_intx false s1)) s.
+
 (* PGProvider.set_transaction_mode *)
-Definition pg_stm (sh : shape) (s : pst) : pst :=
+Definition pg_stm (sh : shape) (s : pst) : pres :=
   let s1 := if g_imm s && g_ac s then p_set_ac false s else s in
-  let s2 := if shape_ser sh then p_exec PSetSerializable s1
-            else if negb (g_imm s1) && negb (g_ac s1) then p_set_ac true s1 else s1 in
-  if shape_ser sh || shape_ddl sh then p_set_intx true s2 else s2.
+  pbind (fun s1 => if shape_ser sh then pcallf (PExecute PSetSerializable) s1
+                   else pret (if negb (g_imm s1) && negb (g_ac s1) then p_set_ac true s1 else s1))
+        (fun s2 => pret (if shape_ser sh || shape_ddl sh then p_set_intx true s2 else s2)) s1.
 
 Definition pg_get_cache (sh : shape) (s : pst) : pst :=
-  if g_reg s then s else mkP false (g_ac s) (g_dtx s) true (shape_imm sh) false (g_bad s) (g_trace s).
-Definition pg_prepare (sh : shape) (s : pst) : pst :=
-  if negb (g_has s) then p_set_has true (pg_stm sh s)          (* cache.connect(): the pool's connection *)
-  else if g_imm s && negb (g_intx s) then pg_stm sh s else s.
+  if g_reg s then s else mkP false (g_pool s) (g_ac s) (g_dtx s) true (shape_imm sh) false (g_bad s) (g_n s) (g_trace s).
+(* SessionCache.connect: pool.connect() (a fresh psycopg2 connection when the pool has none), set_transaction_mode, drop on failure *)
+Definition pg_connect (sh : shape) (s : pst) : pres :=
+  let s0 := if g_pool s then s else mkP (g_has s) true false false (g_reg s) (g_imm s) (g_intx s) (g_bad s) (g_n s) (g_trace s) in
+  match pg_stm sh s0 with
+  | (true, s1) => pret (p_set_has true s1)
+  | (false, s1) => match pg_drop s1 with (_, s2) => pfail s2 end
+  end.
+Definition pg_prepare (sh : shape) (s : pst) : pres :=
+  if negb (g_has s) then pg_connect sh s
+  else if g_imm s && negb (g_intx s) then pg_stm sh s      (* on failure cache.reconnect(e) re-raises e *)
+  else pret s.
 (* Database._exec_sql *)
-Definition pg_exec (sh : shape) (start : bool) (q : pstmt) (s : pst) : pst :=
+Definition pg_exec (sh : shape) (start : bool) (q : pstmt) (s : pst) : pres :=
   let s0 := pg_get_cache sh s in
   let s1 := if start then p_set_imm true s0 else s0 in
-  let s2 := p_exec q (pg_prepare sh s1) in
-  if g_imm s2 then p_set_intx true s2 else s2.
-(* PGPool.release: rollback; autocommit = True; DISCARD ALL; autocommit = False *)
-Definition pg_pool_release (s : pst) : pst := p_set_ac false (p_exec PDiscard (p_set_ac true (p_end PRollback s))).
-(* DBAPIProvider.release of a ddl session: provider.drop -> Pool.drop -> close(); the next session gets a new connection
-   (psycopg2: autocommit off, no transaction) *)
-Definition pg_drop (s : pst) : pst :=
-  let s1 := plog PClose s in
-  mkP (g_has s1) false false (g_reg s1) (g_imm s1) (g_intx s1) (g_bad s1) (g_trace s1).
+  pbind (pg_prepare sh) (pbind (pcallf (PExecute q)) (fun s3 => pret (if g_imm s3 then p_set_intx true s3 else s3))) s1.
+(* PGPool.release: try: rollback; autocommit = True; DISCARD ALL; autocommit = False  except: pool.drop(con); raise *)
+Definition pg_pool_release (s : pst) : pres :=
+  match pcallf PRollback s with
+  | (false, s1) => match pg_pool_drop s1 with (_, s2) => pfail s2 end
+  | (true, s1) =>
+      match pcallf (PExecute PDiscard) (p_set_ac true s1) with
+      | (false, s2) => match pg_pool_drop s2 with (_, s3) => pfail s3 end
+      | (true, s2) => pret (p_set_ac false s2)
+      end
+  end.
 (* SessionCache.close *)
-Definition pg_close (sh : shape) (rb : bool) (s : pst) : pst :=
-  let s0 := mkP (g_has s) (g_ac s) (g_dtx s) false (g_imm s) (g_intx s) (g_bad s) (g_trace s) in
-  if negb (g_has s0) then s0
+Definition pg_close (sh : shape) (rb : bool) (s : pst) : pres :=
+  let s0 := p_set_reg false s in
+  if negb (g_has s0) then pret s0
   else let s1 := p_set_has false s0 in
-       let s2 := if rb then p_set_intx false (p_end PRollback s1) else s1 in
-       if shape_ddl sh then pg_drop s2 else pg_pool_release s2.
-(* SessionCache.commit *)
-Definition pg_commit (s : pst) : pst :=
+       pbind (fun s1 => if rb then match pcallf PRollback s1 with
+                                   | (true, s2) => pret (p_set_intx false s2)
+                                   | (false, s2) => match pg_drop s2 with (_, s3) => pfail s3 end
+                                   end
+                        else pret s1)
+             (fun s2 => if shape_ddl sh then pg_drop s2 else pg_pool_release s2) s1.
+(* SessionCache.commit: provider.commit; on failure cache.rollback() and re-raise *)
+Definition pg_commit (sh : shape) (s : pst) : pres :=
   if g_reg s then
-    let s1 := if g_intx s then p_set_intx false (p_end PCommit s) else s in
-    p_set_imm true s1
-  else s.
-Definition pg_rollback (sh : shape) (s : pst) : pst := if g_reg s then pg_close sh true s else s.
+    match (if g_intx s then match pcallf PCommit s with (true, s1) => pret (p_set_intx false s1) | r => r end else pret s) with
+    | (true, s1) => pret (p_set_imm true s1)
+    | (false, s1) => match pg_close sh true s1 with (_, s2) => pfail s2 end
+    end
+  else pret s.
+Definition pg_rollback (sh : shape) (s : pst) : pres := if g_reg s then pg_close sh true s else pret s.
 
 Inductive pop := PoSelect | PoWrite | PoCommit | PoRollback.
-Definition pg_op (sh : shape) (o : pop) (s : pst) : pst :=
+Definition pg_op (sh : shape) (o : pop) (s : pst) : pres :=
   match o with
   | PoSelect => pg_exec sh false PSel s
   | PoWrite => pg_exec sh true PWr s
-  | PoCommit => pg_commit s
+  | PoCommit => pg_commit sh s
   | PoRollback => pg_rollback sh s
   end.
-Definition pg_session (s : pst) (x : shape * list pop * bool) : pst :=
-  let '(sh, body, fail) := x in
-  let s1 := fold_left (fun a o => pg_op sh o a) body s in
-  if fail then pg_rollback sh s1
-  else let s2 := pg_commit s1 in if g_reg s2 then pg_close sh false s2 else s2.
-Definition pg_run (l : list (shape * list pop * bool)) (s : pst) : pst := fold_left pg_session l s.
+(* the body: (operation, does the body catch its exception) *)
+Fixpoint pg_body (sh : shape) (b : list (pop * bool)) (s : pst) : pres :=
+  match b with
+  | [] => pret s
+  | (o, c) :: b' => match pg_op sh o s with
+                    | (true, s1) => pg_body sh b' s1
+                    | (false, s1) => if c then pg_body sh b' s1 else pfail s1
+                    end
+  end.
+(* db_session exit *)
+Definition pg_exit (sh : shape) (r : pres) : pres :=
+  let (ok, s1) := r in
+  if ok then pbind (pg_commit sh) (fun s2 => if g_reg s2 then pg_close sh false s2 else pret s2) s1
+  else match pg_rollback sh s1 with (_, s2) => pfail s2 end.
+Definition pg_session (s : pst) (x : shape * list (pop * bool) * bool) : pst :=
+  let '(sh, body, raises) := x in
+  let r := pg_body sh body s in
+  snd (pg_exit sh (if raises then (false, snd r) else r)).
+Definition pg_run (l : list (shape * list (pop * bool) * bool)) (s : pst) : pst := fold_left pg_session l s.
+End WithOracle.
 
-Definition pg_init (ac : bool) : pst := mkP false ac false false false false false [].
+Definition pg_init (ac : bool) : pst := mkP false true ac false false false false false 0 [].
 
-(* every write is executed with autocommit off, i.e. inside a transaction that only commit() ends; autocommit is never
-   switched inside a transaction *)
+(* every successful write was executed with autocommit off, i.e. inside a driver transaction that only commit() ends;
+   every COMMIT is issued with autocommit off *)
 Definition pg_writes_ok (tr : list pevent) : bool :=
-  forallb (fun e => match pe_call e with PExecute PWr => negb (pe_ac e) | _ => true end) tr.
+  forallb (fun e => match pe_call e with
+                    | PExecute PWr => negb (pe_ac e)
+                    | PCommit => negb (pe_ac e)
+                    | _ => true end) tr.
 
 Definition pcall_eqb (a b : pcall) : bool :=
   match a, b with
@@ -108,4 +165,5 @@ Definition pcall_eqb (a b : pcall) : bool :=
   | PSetAutocommit x, PSetAutocommit y => eqb x y
   | _, _ => false
   end.
-Definition pevent_eqb (a b : pevent) : bool := pcall_eqb (pe_call a) (pe_call b) && eqb (pe_ac a) (pe_ac b) && eqb (pe_dtx a) (pe_dtx b).
+Definition pevent_eqb (a b : pevent) : bool :=
+  pcall_eqb (pe_call a) (pe_call b) && eqb (pe_ok a) (pe_ok b) && eqb (pe_ac a) (pe_ac b) && eqb (pe_dtx a) (pe_dtx b).
